@@ -16,7 +16,7 @@ REQUIRED_THEOREMS = ['Usid.C04.wf_implies_consistent', 'Usid.C04.model_trace_wf'
                      'Usid.C04.interruptions_good', 'Usid.C04.resume_equiv',
                      'Usid.C04.resume_recomputes_only_unmarked', 'Usid.C04.durable_marks',
                      'Usid.C04.durable_marks_model', 'Usid.C04.durable_marks_needs_results_flush']
-RULE = ('random (N, M, mask, batch, same-file/separate target, fresh/resumed); the clean run is traced through wrappers '
+RULE = ('[also: an older complete group of the same tool with other parameters next to the group at work] [also: the map function itself raising on its first / middle / last call, then compute(override=True) on that survivor] [also: interrupted groups in the LEGACY form - last_pixel attribute only, the status dataset is created by the resumed run] random (N, M, mask, batch, same-file/separate target, fresh/resumed); the clean run is traced through wrappers '
         'around h5py file-modifying calls; then an interruption is injected before EVERY event index - once as a kill-like '
         'stop (graceful survivor after closing the file, kill survivor = the copy taken at the last flush) and once as an '
         'ORDINARY exception raised by that call, after which the library\'s own handlers run (exception survivor); all are checked for '
@@ -50,6 +50,13 @@ def generate(seed, tier):
                       'multi': [[rng.randint(0, 40), rng.random() < 0.5, rng.randint(1, n)]
                                 for _ in range(rng.randint(1, 3))] if (tier != 'quick' or i % 3 == 0) else [],
                       'hard': tier == 'thorough' and i % 4 == 0})
+        # the interrupted run of an OLD version: no status dataset, only last_pixel = number of finished positions
+        rl = derived_rng(seed, 'C04l', i)
+        if kind == 'prefix' and rl.random() < 0.6:
+            cases[-1]['legacy'] = True
+        # an older, COMPLETE results group of the same tool with other parameters sits next to the one at work
+        if rl.random() < 0.4:
+            cases[-1]['older'] = True
     # nearly complete large runs: only the last few crash points are explored
     for j in range({'quick': 1, 'thorough': 6, 'search': 2}[tier]):
         rng = derived_rng(seed, 'C04big', j)
@@ -69,18 +76,26 @@ def _setup(inp, d):
     os.makedirs(d, exist_ok=True)
     src, tgt = os.path.join(d, 'src.h5'), os.path.join(d, 'tgt.h5')
     prior = None if inp['fresh'] else [-1.0 if s == 0 else -100.0 - i for i, s in enumerate(mask)]
+    idx = 1 if inp.get('older') else 0
     with h5py.File(src, 'w') as f:
         g = f.create_group('G')
         hm = gen.write_usid(g, ds)
         main = hm[()]
+        final = [int(procs.map_value(main[i])) for i in range(n)]
+        if inp.get('older') and not inp['separate']:
+            procs.make_prior_group(g, 'main', 'RowProc', {'a': 2}, n, mask=[1] * n, results=[float(x) for x in final],
+                                   index=0, source=hm)
         if prior is not None and not inp['separate']:
-            procs.make_prior_group(g, 'main', 'RowProc', {'a': 1}, n, mask=mask, results=prior, source=hm)
+            procs.make_prior_group(g, 'main', 'RowProc', {'a': 1}, n, mask=None if inp.get('legacy') else mask,
+                                   last_pixel=sum(mask) if inp.get('legacy') else None, results=prior, source=hm, index=idx)
     if inp['separate']:
         with h5py.File(tgt, 'w') as f:
             g = f.create_group('T')
+            if inp.get('older'):
+                procs.make_prior_group(g, 'main', 'RowProc', {'a': 2}, n, mask=[1] * n, results=[float(x) for x in final], index=0)
             if prior is not None:
-                procs.make_prior_group(g, 'main', 'RowProc', {'a': 1}, n, mask=mask, results=prior)
-    final = [int(procs.map_value(main[i])) for i in range(n)]
+                procs.make_prior_group(g, 'main', 'RowProc', {'a': 1}, n, mask=None if inp.get('legacy') else mask,
+                                       last_pixel=sum(mask) if inp.get('legacy') else None, results=prior, index=idx)
     return final, prior
 
 
@@ -90,7 +105,7 @@ def _copy(d_from, d_to, separate):
         shutil.copy(os.path.join(d_from, fn), os.path.join(d_to, fn))
 
 
-def _attempt(d, inp, batch, crash_at=None, snap_dir=None, soft=False):
+def _attempt(d, inp, batch, crash_at=None, snap_dir=None, soft=False, map_raise=None, override=False):
     """one construction + compute() in directory d; returns dict"""
     separate = inp['separate']
     src, tgt = os.path.join(d, 'src.h5'), os.path.join(d, 'tgt.h5')
@@ -98,6 +113,10 @@ def _attempt(d, inp, batch, crash_at=None, snap_dir=None, soft=False):
     if os.path.exists(log):
         os.remove(log)
     os.environ[procs.LOG_ENV] = log
+    if map_raise is not None:
+        os.environ[procs.RAISE_ENV] = str(map_raise)
+    else:
+        os.environ.pop(procs.RAISE_ENV, None)
     RowProc = procs.make_proc_class()
 
     def on_flush(h5f):
@@ -113,15 +132,18 @@ def _attempt(d, inp, batch, crash_at=None, snap_dir=None, soft=False):
             kw = {'h5_target_group': ft['T']} if ft is not None else {}
             p = RowProc(f['G/main'], parms={'a': 1}, cores=1, **kw)
             p._max_pos_per_read = batch
-            grp = p.compute()
+            grp = p.compute(override=True) if override else p.compute()
             out['group'] = grp.name
     except procs.Crash:
         out['crashed'] = True
     except procs.SoftFault:
         out['crashed'] = True
+    except procs.MapFault:
+        out['crashed'] = True
     except Exception as e:     # noqa
         out['error'] = '%s: %s' % (type(e).__name__, str(e)[:200])
     finally:
+        os.environ.pop(procs.RAISE_ENV, None)
         f.close()
         if ft is not None:
             ft.close()
@@ -143,13 +165,17 @@ def _read_groups(d, separate):
                     g = parent[k]
                     st = [int(x) for x in g['completed_positions'][()]] if 'completed_positions' in g else None
                     rs = [float(x) for x in g['Results'][()]] if 'Results' in g else None
+                    if st is None and rs is not None and 'last_pixel' in g.attrs:
+                        # the progress record of an old version: the number of finished positions
+                        lp = max(0, min(len(rs), int(g.attrs['last_pixel'])))
+                        st = [1] * lp + [0] * (len(rs) - lp)
                     out[parent.name + '/' + k if parent.name != '/' else '/' + k] = (st, rs)
     except OSError as e:
         return {'__unopenable__': str(e)[:100]}
     return out
 
 
-def _model_events(events, gname, separate, prefix=None):
+def _model_events(events, gname, separate, prefix=None, initial=()):
     """canonical model-form of observed h5py events for results group `gname`; `prefix` (a list) receives,
     for every observed index i, the number of model events produced by observed events < i"""
     resfile = 'tgt.h5' if separate else 'src.h5'
@@ -170,8 +196,13 @@ def _model_events(events, gname, separate, prefix=None):
                 for p, v in zip(pos, vals):
                     out.append({'e': 'w', 'f': 1 if separate else 0, 'g': 0, 'p': p, 'v': int(v)})
             elif name == 'completed_positions' and e['val'] == [1.0]:
+                # (a legacy group is given its status dataset by compute() itself, which marks the positions that
+                #  were complete BEFORE this run in one write: that restates the initial state and is not progress)
+                if pos and all(p in initial for p in pos):
+                    out.append({'e': 'o'})
                 for p in pos:
-                    out.append({'e': 'm', 'f': 1 if separate else 0, 'g': 0, 'p': p})
+                    if p not in initial:
+                        out.append({'e': 'm', 'f': 1 if separate else 0, 'g': 0, 'p': p})
             else:
                 out.append({'e': 'o'})
         else:
@@ -192,6 +223,22 @@ def _consistent(groups, final, prior):
             if s == 1 and not (rs[p] == final[p] or (prior is not None and rs[p] == prior[p] and prior[p] != -1.0)):
                 bad.append((name, p, rs[p]))
     return bad
+
+
+def _initial(inp):
+    return {p for p, s_ in enumerate(inp['mask']) if s_ == 1} if inp.get('legacy') else set()
+
+
+def _results_ok(inp, rs, final, prior, group_was_prior):
+    """the results of the finished run.  In a legacy group an interruption between the creation of the status
+    dataset and the write that marks the old progress leaves a survivor in which NO position is marked: the resumed
+    run then rightly recomputes the old positions too, so each of them may hold the old or the recomputed value"""
+    if rs is None:
+        return False
+    want = _expected_final(inp, final, prior, group_was_prior)
+    if not inp.get('legacy'):
+        return rs == want
+    return all(rs[i] == want[i] or (inp['mask'][i] == 1 and rs[i] == float(final[i])) for i in range(inp['n']))
 
 
 def _expected_final(inp, final, prior, group_was_prior):
@@ -216,11 +263,21 @@ def run_impl(inp, work):
     prefix = []
     obs = {'n_events': L, 'ref_error': ref['error'], 'ref_group': gname, 'ref_status': ref_status,
            'ref_results_ok': ref_results == _expected_final(inp, final, prior, not inp['fresh']),
-           'ref_calls': sorted(ref['calls']), 'model_events': _model_events(events, gname, sep, prefix),
+           'ref_calls': sorted(ref['calls']), 'model_events': _model_events(events, gname, sep, prefix, initial=_initial(inp)),
            'prefix': prefix,
            'final': final, 'crash': [], 'multi': None, 'hard': []}
     status0 = inp['mask'] if not inp['fresh'] else [0] * inp['n']
     obs['status0'] = status0
+    # legacy group: index of the write with which the resumed run restates the old progress in its new status dataset
+    obs['legacy_mark_event'] = None
+    if inp.get('legacy'):
+        ini = _initial(inp)
+        for j, e in enumerate(events):
+            if e['e'] == 'write' and e.get('dset', '').endswith('/completed_positions') and e.get('val') == [1.0]:
+                pos = procs.expand_key(e['key'], 10 ** 6) if e['key'][0] != 'slice' else list(range(e['key'][1] or 0, e['key'][2]))
+                if pos and all(p in ini for p in pos):
+                    obs['legacy_mark_event'] = j
+                    break
     # ---- every crash point ---------------------------------------------------------------------
     points = list(range(L)) if not inp.get('tail') else list(range(max(0, L - inp['tail']), L))
     obs['points'] = points
@@ -249,7 +306,7 @@ def run_impl(inp, work):
             groups_f.append(cur)
         done = [g for g in groups_f if g[-1] < i]
         last_ckpt_start = done[-1][0] if done else 0
-        marks_before = sorted({e['p'] for e in _model_events(events[:last_ckpt_start], gname, sep) if e['e'] == 'm'})
+        marks_before = sorted({e['p'] for e in _model_events(events[:last_ckpt_start], gname, sep, initial=_initial(inp)) if e['e'] == 'm'})
         for kind, d in (('graceful', cd), ('kill', snap), ('exception', xd)):
             groups = _read_groups(d, sep)
             if '__unopenable__' in groups:
@@ -274,7 +331,7 @@ def run_impl(inp, work):
             was_prior = (not inp['fresh'])
             r['resume'] = {
                 'error': b['error'], 'status_done': st2 == [1] * inp['n'],
-                'results_ok': rs2 == _expected_final(inp, final, prior, was_prior),
+                'results_ok': _results_ok(inp, rs2, final, prior, was_prior),
                 'same_group': g2 == gname, 'survivor_has_group': gname in groups, 'survivor_has_status': st is not None,
                 'calls_ok': sorted(b['calls']) == ([p for p in range(inp['n']) if before[g2][0][p] == 0]
                                                    if g2 in before and before[g2][0] is not None
@@ -286,6 +343,54 @@ def run_impl(inp, work):
         obs['crash'].append(rec)
         shutil.rmtree(cd, ignore_errors=True)
         shutil.rmtree(snap, ignore_errors=True)
+        shutil.rmtree(xd, ignore_errors=True)
+    # ---- the user's map function raises on its k-th call (an interruption BETWEEN file-modifying steps) ------------
+    obs['mapfault'] = []
+    npend = sum(1 for x in status0 if x == 0)
+    for kcall in sorted({0, npend // 2, max(0, npend - 1)}) if (npend and not inp.get('tail')) else []:
+        xd = os.path.join(work, 'mf%d' % kcall)
+        _copy(base, xd, sep)
+        a = _attempt(xd, inp, inp['batch'], map_raise=kcall)
+        rec = {'k': kcall, 'raised': a['crashed'], 'error': a['error']}
+        groups = _read_groups(xd, sep)
+        if '__unopenable__' in groups:
+            rec['survivor'] = {'unopenable': True}
+        else:
+            st, rs = groups.get(gname, (None, None))
+            r = {'status': st, 'inconsistent': _consistent(groups, final, prior)}
+            rd = os.path.join(work, 'r')
+            if os.path.exists(rd):
+                shutil.rmtree(rd)
+            _copy(xd, rd, sep)
+            b = _attempt(rd, inp, inp['batch2'])
+            after = _read_groups(rd, sep)
+            g2 = b['group']
+            st2, rs2 = after.get(g2, (None, None)) if g2 else (None, None)
+            r['resume'] = {
+                'error': b['error'], 'status_done': st2 == [1] * inp['n'],
+                'results_ok': _results_ok(inp, rs2, final, prior, not inp['fresh']),
+                'same_group': g2 == gname, 'survivor_has_group': gname in groups, 'survivor_has_status': st is not None,
+                'calls_ok': sorted(b['calls']) == ([p for p in range(inp['n']) if groups[g2][0][p] == 0]
+                                                   if g2 in groups and groups[g2][0] is not None
+                                                   else list(range(inp['n']))),
+                'untouched_ok': all(after[k][1][p] == groups[k][1][p]
+                                    for k in groups if groups[k][0] is not None and groups[k][1] is not None
+                                    for p in range(inp['n']) if groups[k][0][p] == 1)}
+            # compute(override=True) on the survivor: a fresh group, everything computed, the interrupted group untouched
+            od = os.path.join(work, 'ov')
+            if os.path.exists(od):
+                shutil.rmtree(od)
+            _copy(xd, od, sep)
+            c = _attempt(od, inp, inp['batch2'], override=True)
+            after_o = _read_groups(od, sep)
+            g3 = c['group']
+            st3, rs3 = after_o.get(g3, (None, None)) if g3 else (None, None)
+            r['override'] = {'error': c['error'], 'new_group': g3 is not None and g3 not in groups,
+                             'complete': st3 == [1] * inp['n'] and rs3 == [float(x) for x in final],
+                             'calls_all': sorted(c['calls']) == list(range(inp['n'])),
+                             'others_untouched': all(after_o.get(k) == groups[k] for k in groups)}
+            rec['survivor'] = r
+        obs['mapfault'].append(rec)
         shutil.rmtree(xd, ignore_errors=True)
     # ---- successive interruptions -------------------------------------------------------------------
     if inp['multi']:
@@ -308,7 +413,7 @@ def run_impl(inp, work):
         after = _read_groups(md, sep)
         st2, rs2 = after.get(b['group'], (None, None)) if b['group'] else (None, None)
         obs['multi'] = {'steps': steps, 'error': b['error'], 'status_done': st2 == [1] * inp['n'],
-                        'results_ok': rs2 == _expected_final(inp, final, prior, not inp['fresh']) or
+                        'results_ok': _results_ok(inp, rs2, final, prior, not inp['fresh']) or
                         (inp['fresh'] and rs2 == [float(x) for x in final])}
     # ---- real kills (child process exits with os._exit at the event) ------------------------------
     if inp.get('hard'):
@@ -386,6 +491,35 @@ def oracle(inp, obs):
             if kind == 'kill' and r.get('durable_missing'):
                 fails.append('durable-%s: marks %s written before the last checkpoint are not in the kill survivor '
                              '(crash before event %d)' % (tag, r['durable_missing'], rec['i']))
+    for rec in obs.get('mapfault', []):
+        where = 'the map function raised on call %d, %s' % (rec['k'], tag)
+        if rec['error'] or not rec['raised']:
+            fails.append('mapfault-propagation: the error of the map function did not reach the caller as it was raised (%s, %s)'
+                         % (rec['error'], where))
+        r = rec['survivor']
+        if r.get('unopenable'):
+            fails.append('unopenable-mapfault: %s' % where)
+            continue
+        if r['inconsistent']:
+            fails.append('consistent-mapfault: position marked complete without its final result %s (%s)'
+                         % (r['inconsistent'][:3], where))
+        res = r['resume']
+        if res['error']:
+            fails.append('resume-error-mapfault: re-constructing / resuming raised %s (%s)' % (res['error'], where))
+        else:
+            if not res['status_done'] or not res['results_ok']:
+                fails.append('resume-result-mapfault: resumed run does not end like the uninterrupted one (%s)' % where)
+            if not res['calls_ok']:
+                fails.append('resume-calls-mapfault: resumed run did not recompute exactly the unmarked positions (%s)' % where)
+            if not res['untouched_ok']:
+                fails.append('resume-untouched-mapfault: an already-completed result was rewritten (%s)' % where)
+            ov = r.get('override')
+            if ov is not None and (ov['error'] or not (ov['new_group'] and ov['complete'] and ov['calls_all'] and ov['others_untouched'])):
+                fails.append('override-on-survivor: compute(override=True) on the interrupted state must start a fresh group, '
+                             'compute every position and leave the interrupted group alone: %s (%s)' % (ov, where))
+            if res.get('survivor_has_status') and not res['same_group']:
+                fails.append('resume-group-mapfault: the interrupted group has a progress record but the computation went '
+                             'on in another group (%s)' % where)
     if obs['multi']:
         mu = obs['multi']
         for s in mu['steps']:
@@ -452,6 +586,12 @@ def model_compare(inp, obs, r):
             if real['status'] is None:
                 if s[sk] != status0:
                     out.append('model predicts marks but the group does not exist (%s, %d)' % (kind, rec['i']))
+                continue
+            lme = obs.get('legacy_mark_event')
+            if inp.get('legacy') and lme is not None and rec['i'] <= lme and real['status'] == [0] * inp['n']:
+                # the window between the creation of the status dataset and the write that restates the old progress:
+                # the still-empty status dataset supersedes last_pixel, the old progress is forgotten (work is
+                # repeated, nothing wrong is stored) - the stop-here model keeps the initial marks and is not compared
                 continue
             if real['status'] != s[sk]:
                 out.append('survivor status differs (%s, crash %d): real %s model %s'
